@@ -3330,10 +3330,14 @@ func (t *transport) RoundTrip(hc *HostClient, req *Request, resp *Response) (ret
 				return nil
 			}
 			hc.ReleaseReader(br)
+			// A body that was not read to its end is still on the connection
+			// and would be taken for the response to the next request.
+			unread := false
 			if r, ok := rbs.(*requestStream); ok {
+				unread = r.unread()
 				releaseRequestStream(r)
 			}
-			if closeConn || resp.ConnectionClose() || wErr != nil {
+			if closeConn || resp.ConnectionClose() || wErr != nil || unread {
 				hc.CloseConn(cc)
 			} else {
 				hc.ReleaseConn(cc)
